@@ -204,6 +204,10 @@ class Built:
             if t[1] not in self.flats:
                 self.flats[t[1]] = flatten(self.term(t[2]))
             return self.flats[t[1]]
+        if k == 'concat':
+            if t[1] not in self.flats:
+                self.flats[t[1]] = concatenate(self.term(t[2]))
+            return self.flats[t[1]]
         raise ValueError(t)
 
     def cond(self, c):
